@@ -74,7 +74,7 @@ def run(pid, chk, max_mutants=None):
         overlays, d = r
         try:
             Fm = facts.Facts.load("/repo", overlays=overlays)
-            sub = report.Check(pid, chk.tier, chk.level)
+            sub = report.Check(pid, "quick", chk.level)  # mutants are analysed with the named versions
             try:
                 mod.run(Fm, sub)
             except Exception as e:  # a mutant may break an anchor: that is a detection of sorts, recorded separately
